@@ -1386,6 +1386,16 @@ theorem corevm_startflow_link_is_op (hν : Function.Injective ν) (f : CoreIndex
       Refine.absVM ν φ vm' = Refine.linkInst (Refine.absVM ν φ vm) (ν f) (ν parent) n.toNat ∧ Refine.WF vm' :=
   Refine.corevm_startFlow_is_link ν φ hν f args vm vm' n parent osh hm hact hn0 hsh hsrc hw hfp hnoargs hrun
 
+/-- creation followed by the link IS the operation `startChild` of the Lifetime machine (when its guard holds): the two abstract
+    steps that CoreVM performs separately compose to the one operation the T2 theorems are about -/
+theorem create_then_link_is_startChild (s : State) (c fid p k : Nat) (pf : Flow) (hc : s.flows c = none) (hp : s.flows p = some pf)
+    (hg : (unlisted s c && c != p && (pf.status.listening || (decide (k > 0) && pf.flowId == fid && decide (pf.activated > 0)))) = true) :
+    Refine.linkInst (Refine.createInst s c fid) c p k = applyOp s (.startChild c fid p k) :=
+  Refine.link_create_eq_startChild s c fid p k pf hc hp hg
+
+-- non-vacuity: the main flow starts a child in the initial state
+example : (unlisted initState 5 && (5 : Nat) != 0 && ((freshFlow 0).status.listening || false)) = true := by decide
+
 /-- every refined CoreVM step (`Refine.RefinedStep`: outermost `abortFlow` / `finishFlow`; the `EndScope`, `BeginScope`,
     `start_new_flow_instance`-label and effect-free elements of `slideStep`; `StopFlow` / `FinishFlow` processing in all forms
     (`flow_instance_uid=…`, `flow_id=…` with the loop over `flow_id_states`); non-creating `StartFlow` processing; `setFlowStatus`
